@@ -43,6 +43,9 @@ CLAIMS = {
  'C05': ('exploration',
    "TLA+ spec WireGrammar describes RFC 9580 packet bodies as typed token sequences and TLC enumerates ~18 000 cells (every one-octet id of PKESK/SKESK/signature/one-pass/literal/compressed/SEIPD/key/secret-key fields, every subpacket type 0..127 x critical x 1/2/5-octet length form x area, MPI encoding styles, unknown versions, areas up to 100 000 octets, multi-byte text) with predicted body length, canonicity and whether acceptance is demanded (internal consistency checked by TLC); Framing and KeyLock are model-checked for the header thresholds and mutation histories. A table-driven concretiser (no packet knowledge) turns tokens into octets; the harness checks acceptance, parse(serialise(p)) = p, octet-identical re-serialisation of canonical input, and announced = written lengths for packets, certificates (secret/public/armored, 6-9 algorithms), after lock/unlock histories and after unhashed subpacket push/insert/remove with every length class.",
    'DESIGN.md 5/C05', 'TLA+ token-grammar specification enumerated by TLC; independent spec-derived encoder vs the crate parser/serialiser (spec->impl conformance)'),
+ 'C02': ('exploration',
+   "TLA+ spec SigVerify models signatures symbolically (digest = injective function of salt, canonical content / key framing, version, type, algorithms, hashed area) and the verifier as the ordered checks of Signature::verify*; TLC checks soundness/completeness over 7 kinds x v4|v6 x 21 perturbations and, switching one ingredient off at a time, that metadata hashing, salt binding, issuer match and version alignment are each decisive. TLC emits every cell; the harness realises it on genuine artefacts (4-6 key algorithms) with field-level perturbation through Signature::from_config, content edits, foreign keys and the same key material under another version/identity, through every applicable entry point (Signature::verify*, DetachedSignature, inline Message::verify with replaced packets, cleartext, certificate verify_bindings), plus exhaustive single-bit flips of a 64-octet content and of the whole signature packet (Ed25519 v4/v6).",
+   'DESIGN.md 5/C02', 'TLA+ symbolic verifier model checked with TLC; TLC-generated perturbation matrix replayed on real artefacts (spec->impl conformance)'),
 }
 checks = []
 for p in props:
